@@ -167,8 +167,10 @@ class Builder():
 
         if isinstance(source, str) and not raw_yaml:
             try:
-                with open(os.path.expanduser(source), 'r') as f:
-                    self._current_file = source
+                # (remember the file under the name it was actually opened by: a leading '~' means nothing to anything else)
+                expanded = os.path.expanduser(source)
+                with open(expanded, 'r') as f:
+                    self._current_file = expanded
                     source = f.read()
             except (FileNotFoundError, OSError) as e:
                 #OSError(22) is "Invalid argument"
